@@ -28,7 +28,11 @@ Layers, bottom up:
   histograms count per tally bucket (C03 placement) and a pass observes the bucket's upper bound
   `pending` times.  The vectors handed out by `RegisterCounter` / `RegisterGauge` / `RegisterTimer`
   are used by the caller directly (`rawCounter`, `rawGauge`, `timer`): every `Add` / `Set` /
-  `Observe` reaches the series at once and a report pass has nothing to deliver.
+  `Observe` reaches the series at once and a report pass has nothing to deliver.  `RegisterCounter`
+  / `RegisterGauge` take the help text from the caller (`counterAsD desc`, `gaugeAsD desc`;
+  `counterAs` / `gaugeAs` are the uses with tally's default text): the same text for a counter and a
+  gauge of one name and one label set makes the two descriptors equal, so the client answers the
+  second registration with `AlreadyRegisteredError` rather than with "previously registered".
 
 Tags are association lists sorted by key with distinct keys (obligation of the caller; the driver
 rejects anything else), so `(name, tags)` is the canonical identity of a series.
@@ -199,6 +203,38 @@ def gaugeVec (r : Reporter) (name : Bytes) (keys : List Bytes) : Reporter × Vec
     | .err e => (r, .err e)
     | .ok reg' => ({ r with reg := reg', gauges := ((name, keys), f) :: r.gauges }, .vec (some f))
 
+/-- the family `counterVec` / `gaugeVec` build when the caller supplies the help string:
+`prom.CounterOpts{Name: name, Help: desc}` / `prom.GaugeOpts{Name: name, Help: desc}` with `tagKeys`
+(`mkFamily name keys kind bounds = mkFamilyD name keys kind bounds (name ++ helpSuffix kind)`) -/
+def mkFamilyD (name : Bytes) (keys : List Bytes) (kind : Kind) (bounds : List F64) (desc : Bytes) : Family :=
+  { name := name, help := desc, labels := keys, kind := kind, bounds := bounds }
+
+/-- `r.counterVec(name, tagKeys, desc)` with the caller's `desc` (`RegisterCounter`): the Go code is
+`id := canonicalMetricID(name, tagKeys); if ctr, ok := r.counters[id]; ok { return ctr, nil };
+ctr := prom.NewCounterVec(prom.CounterOpts{Name: name, Help: desc}, tagKeys);
+if err := r.registerer.Register(ctr); err != nil { return nil, err }; r.counters[id] = ctr; return ctr, nil`
+— the cache lookup by `(name, keys)` comes first (a hit ignores `desc`); `counterVec` is the instance
+`desc = name ++ helpSuffix .counter` -/
+def counterVecD (r : Reporter) (name : Bytes) (keys : List Bytes) (desc : Bytes) : Reporter × VecResult :=
+  match lookupKey r.counters (name, keys) with
+  | some f => (r, .vec (some f))
+  | none =>
+    let f := mkFamilyD name keys .counter [] desc
+    match register r.reg f with
+    | .err e => (r, .err e)
+    | .ok reg' => ({ r with reg := reg', counters := ((name, keys), f) :: r.counters }, .vec (some f))
+
+/-- `r.gaugeVec(name, tagKeys, desc)` with the caller's `desc` (`RegisterGauge`); `gaugeVec` is the
+instance `desc = name ++ helpSuffix .gauge` -/
+def gaugeVecD (r : Reporter) (name : Bytes) (keys : List Bytes) (desc : Bytes) : Reporter × VecResult :=
+  match lookupKey r.gauges (name, keys) with
+  | some f => (r, .vec (some f))
+  | none =>
+    let f := mkFamilyD name keys .gauge [] desc
+    match register r.reg f with
+    | .err e => (r, .err e)
+    | .ok reg' => ({ r with reg := reg', gauges := ((name, keys), f) :: r.gauges }, .vec (some f))
+
 /-- what a cache hit hands back: the pinned code returns the field as it is; the repaired code
 turns a nil field into an error -/
 def hitResult (v : Variant) (field : Option Family) : VecResult :=
@@ -304,6 +340,11 @@ inductive UseKind
   | counterAs
   /-- `RegisterGauge`, then `With(tags)` by the caller, who `Set`s the Prometheus gauge directly -/
   | gaugeAs
+  /-- `RegisterCounter(name, keys, desc)` with the caller's own help text, then `With(tags)` by the
+  caller (`counterAs` behaves as `counterAsD (name ++ helpSuffix .counter)`) -/
+  | counterAsD (desc : Bytes)
+  /-- `RegisterGauge(name, keys, desc)` with the caller's own help text, then `With(tags)` by the caller -/
+  | gaugeAsD (desc : Bytes)
   deriving DecidableEq, Repr
 
 def keysOf (tags : Tags) : List Bytes := tags.map (·.1)
@@ -321,6 +362,8 @@ def useMetric (cfg : Cfg) (r : Reporter) (kind : UseKind) (name : Bytes) (tags :
   | .histogram spec => finishAlloc cfg (histogramVec cfg.variant r name (keysOf tags) spec.promBounds) tags
   | .counterAs => finishRegister (counterVec r name (keysOf tags)) tags
   | .gaugeAs => finishRegister (gaugeVec r name (keysOf tags)) tags
+  | .counterAsD desc => finishRegister (counterVecD r name (keysOf tags) desc) tags
+  | .gaugeAsD desc => finishRegister (gaugeVecD r name (keysOf tags) desc) tags
 
 /-! ## a tally scope's metric objects -/
 
@@ -392,6 +435,8 @@ def newMetric (kind : UseKind) (h : Handle) : Metric :=
   | .histogram spec => .histogram h spec (spec.obs.map fun _ => 0)
   | .counterAs => .rawCounter h
   | .gaugeAs => .rawGauge h
+  | .counterAsD _ => .rawCounter h
+  | .gaugeAsD _ => .rawGauge h
 
 /-- what is recorded about every first use -/
 structure UseObs where
